@@ -91,6 +91,10 @@ def run(ctx):
     from .c10 import check_equality, check_number_equality
     ctx.attempt("check_equality", check_equality, ctx, lib)
     ctx.attempt("check_number_equality", check_number_equality, ctx, lib)
+    # to_number's value for a string is what from_json builds, i.e. what the Deserialize visitor builds for each JSON scalar
+    # (exact integers, no casts): the visitor rows of C08 on the same facts
+    from .c08 import check_visitor
+    ctx.attempt("check_visitor", check_visitor, ctx, lib)
     check_expref_application(ctx, lib, by_name, sigs)
     ctx.attempt("check_result_types", check_result_types, ctx, lib, sigs)
 
